@@ -52,5 +52,5 @@ while size >= 1:
     size //= 2
 final = "".join(toks)
 _, info = rejects([final])
-print(final)
+print(repr(final))
 print(info.get(0))
